@@ -208,6 +208,66 @@ func extractKill(p *pkgs, f *facts) {
 	} else {
 		f.miss = append(f.miss, "grpcControllerServer.Shutdown")
 	}
+	// CleanupClients / NewClient: the managed-client list
+	regs, each, waits := false, false, false
+	if nc := p.fn("", "NewClient"); nc != nil {
+		// `if config.Managed { … managedClients = append(managedClients, c) … }` with c the client NewClient returns
+		ast.Inspect(nc.Body, func(n ast.Node) bool {
+			is, ok := n.(*ast.IfStmt)
+			if !ok || exprString(is.Cond) != "config.Managed" {
+				return true
+			}
+			for _, st := range is.Body.List {
+				if as, ok := st.(*ast.AssignStmt); ok && len(as.Lhs) == 1 && len(as.Rhs) == 1 && exprString(as.Lhs[0]) == "managedClients" &&
+					strings.HasPrefix(exprString(as.Rhs[0]), "append(managedClients,") {
+					regs = true
+				}
+			}
+			return true
+		})
+	} else {
+		f.miss = append(f.miss, "NewClient(kill)")
+	}
+	if cc := p.fn("", "CleanupClients"); cc != nil {
+		loopIdx, waitIdx := -1, -1
+		for i, st := range cc.Body.List {
+			if rs, ok := st.(*ast.RangeStmt); ok && exprString(rs.X) == "managedClients" && rs.Value != nil {
+				v := exprString(rs.Value)
+				added, killed := false, false
+				early := false
+				for _, b := range rs.Body.List {
+					switch x := b.(type) {
+					case *ast.ExprStmt:
+						if exprString(x.X) == "wg.Add(1)" {
+							added = true
+						}
+					case *ast.GoStmt:
+						// go func(client *Client){ client.Kill(); wg.Done() }(v)
+						if fl, ok := x.Call.Fun.(*ast.FuncLit); ok && len(x.Call.Args) == 1 && exprString(x.Call.Args[0]) == v &&
+							fl.Type.Params != nil && len(fl.Type.Params.List) == 1 && len(fl.Type.Params.List[0].Names) == 1 {
+							pn := fl.Type.Params.List[0].Names[0].Name
+							cs := nodeCalls(fl.Body)
+							killed = strings.Contains(cs, pn+".Kill()") && strings.Contains(cs, "wg.Done()")
+						}
+					case *ast.BranchStmt, *ast.ReturnStmt, *ast.IfStmt:
+						early = true // anything that can skip an element
+					}
+				}
+				if added && killed && !early {
+					loopIdx = i
+				}
+			}
+			if es, ok := st.(*ast.ExprStmt); ok && exprString(es.X) == "wg.Wait()" {
+				waitIdx = i
+			}
+		}
+		each = loopIdx >= 0
+		waits = waitIdx > loopIdx && loopIdx >= 0
+	} else {
+		f.miss = append(f.miss, "CleanupClients")
+	}
+	f.lean = append(f.lean, fmt.Sprintf("def cleanupClients : Kill.CleanupParams := ⟨%s, %s, %s⟩", leanBool(regs), leanBool(each), leanBool(waits)))
+	f.set("cleanupClients", map[string]interface{}{"registersAtConstruction": regs, "killsEach": each, "waitsAll": waits})
 	f.lean = append(f.lean, fmt.Sprintf("def kill : Kill.Params := ⟨%d, %s, %s, %s, %s, %s, %s, %s, %s⟩",
 		grace, leanBool(forceAfter), leanBool(deadline), leanBool(eofGraceful), leanBool(waits), leanBool(clearedLate), leanBool(keepAlive), leanBool(keptBefore), leanBool(stopNow)))
 	f.set("kill", map[string]interface{}{"graceMs": grace, "forceAfterGrace": forceAfter, "shutdownRpcHasDeadline": deadline,
